@@ -72,9 +72,6 @@ Proof. intros H. destruct (expired w); [apply Inv_purged, H|exact H]. Qed.
 (* rtr_stop *)
 Definition stop_sk (s : sock) : sock := upd_st (upd_last (upd_serial (upd_req s true) 0) 0) c_RTR_CLOSED.
 
-Lemma bind_eq {A B} (m : world -> res A) (f : A -> world -> res B) w a w' : m w = Ok a w' -> bind m f w = f a w'.
-Proof. unfold bind. intros ->. reflexivity. Qed.
-
 (* rtr_change_socket_state as a world transformer *)
 Definition state_changed (ns : Z) (w : world) : world :=
   if (st (sk w) =? ns) || (st (sk w) =? c_RTR_SHUTDOWN) then w
